@@ -49,6 +49,35 @@ def py_urldec(x):
     return bytes(out).split(b"\0")[0]
 
 
+def ledger_stream(rng, n):
+    """allocation ledger of qparse_queries (harness/encodeq.c on libqw.a, no model line): 1 private copy of
+    the query + per pair 2 words + 3 blocks of the entry; nothing left after the table is freed"""
+    ops = []
+    for _ in range(n):
+        parts = [bytes(rng.choice(b"ab1%+ ") for _ in range(rng.randrange(0, 4))) + rng.choice([b"=", b"", b"=="]) +
+                 bytes(rng.choice(b"xy2%+ ") for _ in range(rng.choice([0, 1, 5, 60]))) for _ in range(rng.randrange(0, 7))]
+        ops.append("queryallocs %s 3d 26" % hexs(b"&".join(parts)))
+    ops += ["queryallocs - 3d 26", "queryallocs 26 3d 26", "queryallocs 3d 3d 26", "queryallocs 612662 3d 26"]
+
+    def oracle(ops_, lines):
+        for i, (op, l) in enumerate(zip(ops_, lines)):
+            q = unhex(op.split()[1])
+            pairs = len(py_parse_queries(q, 0x3d, 0x26))
+            f = l.split()
+            if len(f) != 6 or f[0] != "ok":
+                return i, "malformed ledger line " + l[:60]
+            if int(f[1]) != pairs:
+                return i, "%s pairs stored, the query has %d" % (f[1], pairs)
+            if int(f[5]) != 0:
+                return i, "%s blocks of the library are still allocated after the table was freed" % f[5]
+            if int(f[3]) != 1 + 5 * pairs:
+                return i, ("qparse_queries made %s allocations for %d pairs; a private copy of the query, two words and "
+                           "one entry (object, name, value) per pair are %d" % (f[3], pairs, 1 + 5 * pairs))
+        return None
+    return Stream("query-allocation-ledger", ops, nomodel=True, harness="encodeq", lib="libqw.a", wraps=(), oracle=oracle,
+                  note="allocation attempts inside qparse_queries = 1 + 5 * pairs, none left")
+
+
 def py_parse_queries(q, eq, sep):
     """what qparse_queries is documented to deliver for the separators eq / sep (0 = the terminator itself:
     nothing is split): pairs in order; name trimmed; both URL-decoded"""
@@ -173,6 +202,32 @@ class TheCheck(Check):
                     self.qref[op] = py_parse_queries(q, e, sp)
                     qs.append(op)
         sts.append(Stream("query-any-separator", qs))
+        # 7. the query text is a value STORED IN the destination table (unique keys) and one of its pairs
+        #    re-defines the entry that holds it: the parser must go on reading the text it was given
+        #    (reference: the pairs of the text, put in order into a table that held key=text)
+        al = []
+        self.aref = {}
+        keys = [b"q", b"query", b"a", b"k1"]
+        for i in range(250 if self.tier == "quick" else 5000):
+            key = rng.choice(keys)
+            k = rng.randrange(1, 7)
+            parts = []
+            for j in range(k):
+                nm = key if rng.random() < 0.4 else bytes(rng.choice(b"abq019_") for _ in range(rng.randrange(0, 5)))
+                vl = bytes(rng.choice(b"abXY09 _.+%") for _ in range(rng.choice([0, 1, 3, 8, 40, 200]))).replace(b"%", b"%7e")
+                parts.append(nm + b"=" + vl)
+            q = b"&".join(parts)
+            if not q:
+                continue
+            op = "queryalias %s %s 3d 26" % (hexs(q), hexs(key))
+            t = [(key, q)]
+            pairs = py_parse_queries(q, 0x3d, 0x26)
+            for n, v in pairs:
+                t = [e for e in t if e[0] != n] + [(n, v)]
+            self.aref[op] = (len(pairs), t)
+            al.append(op)
+        sts.append(ledger_stream(rng, 300 if self.tier == "quick" else 5000))
+        sts.append(Stream("query-aliased-text", al, note="qparse_queries(tbl, tbl->getstr(tbl, key, false), ...) with pairs that re-define key"))
         from checks import mtpure
         sts.append(mtpure.stream(self))      # hidden shared state shows only with concurrent callers
         if self.tier != "quick":
@@ -228,6 +283,11 @@ class TheCheck(Check):
             dec = parse_dec(f)
             if dec is None or dec[0] != b"a b ":
                 return "'+' is not decoded to a blank"
+        elif kind == "queryalias" and op in getattr(self, "aref", {}):
+            n, want = self.aref[op]
+            got = [tuple(unhex(p) for p in t.split("=")) for t in f[2:]]
+            if f[0] != "ok" or int(f[1]) != n or got != want:
+                return "query text stored in the destination table: expected %d pairs, table %r; got %s %r" % (n, want[:4], f[1] if len(f) > 1 else "?", got[:4])
         elif kind == "query" and op in getattr(self, "qref", {}):
             want = self.qref[op]
             got = [tuple(unhex(p) for p in t.split("=")) for t in f[2:]]
